@@ -241,10 +241,10 @@ def variants(poly):
             yield p[s:] + p[:s]
 
 
-def lattice_polys(n: int, size: int = 3):
-    """EVERY simple polygon with n vertices on the size x size integer lattice, as vertex
+def lattice_polys(n: int, w: int = 3, h: int = 3):
+    """EVERY simple polygon with n vertices on the w x h integer lattice, as vertex
     sequences (so every rotation and both windings of each are included)"""
-    pts = [(x, y) for y in range(size) for x in range(size)]
+    pts = [(x, y) for y in range(h) for x in range(w)]
     for seq in itertools.permutations(pts, n):
         if is_simple(list(seq)):
             yield list(seq)
